@@ -4,6 +4,7 @@ import (
 	"encoding/json"
 	"errors"
 	"fmt"
+	"os"
 	"strings"
 
 	"github.com/gittuf/gittuf/internal/policy"
@@ -132,15 +133,75 @@ func c01ShortLogs(c *fw.Ctx, maxLen int, visit func(idx int, h *scen.History)) {
 
 func runC01(c *fw.Ctx) {
 	maxLen := c.Pick(4, 5)
-	gitBudget := c.Pick(3, 30) // fidelity rebuilds on real git per shard
-	c01ShortLogs(c, maxLen, func(idx int, h *scen.History) {
-		c01Judge(c, h, &gitBudget, idx%997 == 0)
-	})
+	gitBudget := c.Pick(3, 30)          // fidelity rebuilds on real git per shard
+	only := os.Getenv("VERIF_C01_ONLY") // debugging aid: restrict to one family
+	if only == "" || only == "short" {
+		c01ShortLogs(c, maxLen, func(idx int, h *scen.History) {
+			c01Judge(c, h, &gitBudget, idx%997 == 0)
+		})
+	}
+	if only == "" || only == "tags" {
+		c01TagFamily(c, func(idx int, h *scen.History) {
+			c01Judge(c, h, &gitBudget, false)
+		})
+	}
+	if only != "" && only != "long" {
+		return
+	}
 	nLong := c.Pick(5000, 200000)
 	r := c.Rand(uint64(100 + c.Shard))
 	for i := 0; i < nLong/c.NShards; i++ {
-		h := genHistory(r, histOpts{Len: 6 + r.IntN(25), Propagation: r.IntN(4) == 0})
+		h := genHistory(r, histOpts{Len: 6 + r.IntN(25), Propagation: r.IntN(4) == 0, Tags: i%3 == 0})
 		c01Judge(c, h, &gitBudget, i%400 == 0)
+	}
+}
+
+// c01TagFamily enumerates short tag histories: a tag rule with threshold 1 or 2,
+// a tag created by an authorized / unauthorized tagger, recorded by an
+// authorized / unauthorized pusher, with or without an approval of the tagging
+// by the second tag principal, and optionally the same tag object recorded a
+// second time (with or without its own approval).
+func c01TagFamily(c *fw.Ctx, visit func(idx int, h *scen.History)) {
+	idx := 0
+	for _, tagThr := range []int{1, 2} {
+		for _, tagger := range []string{"k1", "k4"} {
+			for _, pusher := range []string{"k1", "k4"} {
+				for _, approve1 := range []bool{false, true} {
+					for _, again := range []int{0, 1, 2} { // 0 no, 1 re-record, 2 re-record with approval
+						for _, pusher2 := range []string{"k1", "k2"} {
+							if again == 0 && pusher2 != "k1" {
+								continue
+							}
+							if !c.Mine(idx) {
+								idx++
+								continue
+							}
+							sh := polShape{Main: []string{"k1", "k2"}, MainThr: 1, Rel: []string{"k1"}, RelThr: 1, Tag: []string{"k1", "k2"}, TagThr: tagThr}
+							p := sh.build()
+							h := &scen.History{Events: []scen.Event{{Kind: "policy", Policy: &p, Signer: "root"}}}
+							h.Events = append(h.Events, scen.Event{Kind: "push", Ref: refMain, Signer: "k1", Content: "a"})
+							if approve1 {
+								h.Events = append(h.Events, scen.Event{Kind: "approve", Ref: refTag, FromPush: -1, TagOn: 2, Approvers: []string{"k2"}, Signer: "k2"})
+							}
+							h.Events = append(h.Events, scen.Event{Kind: "tag", Ref: refTag, OnPush: 1, TagSigner: tagger, Signer: pusher})
+							first := len(h.Events) - 1
+							if again > 0 {
+								if again == 2 {
+									ap := "k2"
+									if pusher2 == "k2" {
+										ap = "k1"
+									}
+									h.Events = append(h.Events, scen.Event{Kind: "approve", Ref: refTag, FromPush: first, TagOn: 2, Approvers: []string{ap}, Signer: ap})
+								}
+								h.Events = append(h.Events, scen.Event{Kind: "tag", Ref: refTag, OnPush: 1, Reuse: first + 1, Signer: pusher2})
+							}
+							visit(idx, h)
+							idx++
+						}
+					}
+				}
+			}
+		}
 	}
 }
 
@@ -212,7 +273,7 @@ func histJudge(c *fw.Ctx, h *scen.History, gitBudget *int, fidelity bool, fromEn
 	}
 	anyViolation := false
 	results := map[string]string{}
-	for _, ref := range histRefs {
+	for _, ref := range append(append([]string{}, histRefs...), refTag) {
 		v := oracle.EvalRef(h, ref)
 		if len(v.Entries) == 0 {
 			continue
